@@ -14,6 +14,18 @@ let () = iter_lines (fun line ->
   | ["cururi"; scheme; host; root; path; qs] ->
       so (current_uri (nlist_of_csv scheme) (nlist_of_csv host) (opt root) (opt path)
             (if qs = "~" then None else Some (nlist_of_hex qs)))
+  | ["wcururi"; flags; scheme; hh; name; port; script; path; qs] ->
+      (* flags: three characters 0/1 = root_only strip_querystring host_only *)
+      let server = if name = "~" then None else Some (nlist_of_csv name, opt port) in
+      so (wsgi_current_uri (flags.[0] = '1') (flags.[1] = '1') (flags.[2] = '1') (nlist_of_csv scheme) (opt hh) server
+            (nlist_of_csv script) (nlist_of_csv path) (nlist_of_csv qs))
+  | ["tbytes"; s] -> "ok " ^ hex_of_nlist (tbytes (nlist_of_csv s)) ^ (if wf_pct (nlist_of_csv s) then " wf" else " stray")
+  | ["spliturl"; u] ->
+      (match split_uri (nlist_of_csv u) with
+       | None -> "none"
+       | Some (((sch, auth), path), q) ->
+           Printf.sprintf "ok %s %s %s %s" (csv_of_nlist sch) (csv_of_nlist auth) (csv_of_nlist path)
+             (match q with Some x -> csv_of_nlist x | None -> "~"))
   | ["ghost"; scheme; hh; name; port] ->
       (* host header, or ~ ; server name or ~ ; port as decimal text or ~ *)
       let server = if name = "~" then None else Some (nlist_of_csv name, opt port) in
